@@ -17,6 +17,7 @@ FUNCTIONS = [
     "pendulum.datetime:DateTime._add_timedelta_", "pendulum.datetime:DateTime.add", "pendulum.date:Date._add_timedelta",
     "pendulum.date:Date.add", "pendulum.helpers:add_duration",
 ]
+RUST_CROSSCHECK = True
 ASSUMPTIONS = [
     "C datetime replaced by the CPython-3.12 model; zoneinfo by its contract",
     "rebuild oracle: years/months shift with end-of-month clamping, then days and the time of day (vf/cal.py)",
